@@ -4,7 +4,7 @@ solver decides that the family of output functions equals the family of instanti
 import re, itertools, subprocess, time
 import z3
 from . import front
-from .mirsym.interp import Interp, PathCtx, Ptr, Cell, Agg, RString, RStr, RVec, SeqIter, Panic, Unsupported, mkstr, show, deep_clone
+from .mirsym.interp import Interp, PathCtx, Ptr, Cell, Agg, RString, RStr, RVec, SeqIter, Slice, Panic, Unsupported, mkstr, show, deep_clone
 
 FN_VARIANTS = ['Const', 'Var', 'Param', 'Not', 'Binary']
 LIB_BINOP = ['And', 'Or', 'Xor', 'Iff', 'Imp']
@@ -108,6 +108,19 @@ def _ext(I, fname, f, base, trait, meth, selfty, args):
         if name in ('and', 'or', 'xor', 'iff', 'implies'):
             return B({'and': 'And', 'or': 'Or', 'xor': 'Xor', 'iff': 'Iff', 'implies': 'Imp'}[name], args[0], args[1])
         if name == 'mk_binary': return V('Binary', [args[0], Cell(args[1]), Cell(args[2])])
+        x0 = gg(args[0]) if args else None
+        if name.startswith('as_') and isinstance(x0, Agg) and x0.name == 'FnUpdate':
+            vn = FN_VARIANTS[x0.variant]
+            some = lambda v: Agg('Option', 1, [v]); none = Agg('Option', 0, [])
+            dz = lambda c: c.v if isinstance(c, Cell) else c
+            if name == 'as_const': return some(x0.fields[0]) if vn == 'Const' else none
+            if name == 'as_var': return some(x0.fields[0]) if vn == 'Var' else none
+            if name == 'as_not': return some(Ptr(x0.fields[0]) if isinstance(x0.fields[0], Cell) else Ptr(Cell(x0.fields[0]))) if vn == 'Not' else none
+            if name == 'as_param': return some(Agg('tuple', None, [x0.fields[0], Ptr(Cell(Slice(x0.fields[1], 0, len(x0.fields[1].items))))])) if vn == 'Param' else none
+            if name == 'as_binary':
+                if vn != 'Binary': return none
+                l, r = x0.fields[1], x0.fields[2]
+                return some(Agg('tuple', None, [Ptr(l) if isinstance(l, Cell) else Ptr(Cell(l)), x0.fields[0], Ptr(r) if isinstance(r, Cell) else Ptr(Cell(r))]))
         if name == 'collect_arguments': return RVec(sorted(_vars_of(fn_to_ast(args[0]))))
         if name == 'collect_parameters': return RVec(sorted(_params_of(fn_to_ast(args[0]))))
         return NotImplemented
